@@ -1,12 +1,184 @@
 import Driver.Util
+import Driver.FeRules
+import StoneVerif.Model.FeCompile
 /-!
-`comp.*` ops: the compile model (Model/FeCompile.lean) run on concrete spec ASTs. Stub until the model lands.
+`comp.*` ops: the compile model (Model/FeCompile.lean) run on concrete spec ASTs.
+
+`comp.compile` request `{"op":"comp.compile","files":[{"ns":n,"decls":[D,..]},..],"rx":[[pattern,bool],..]}`
+  `D` = `{"k":"struct","name":s,"extends":R|null,"fields":[F,..],"subtypes":null|{"tags":[[tag,R],..],"catch_all":b}}`
+      | `{"k":"union","name":s,"closed":b,"extends":R|null,"fields":[F,..]}`
+      | `{"k":"alias","name":s,"ref":R}`
+      | `{"k":"route","name":s,"version":int,"arg":R,"result":R,"error":R|null,"deprecated":null|{"by":null|[name,version]}}`
+      | `{"k":"import","target":s}` | `{"k":"annot","name":s}` | `{"k":"annot_type","name":s}`
+  `F` = `{"name":s,"ty":R|null,"has_default":b}`
+  `R` = `{"ns":s|null,"name":s,"pos":[A,..],"kw":[[key,L],..],"nullable":b}`; `A` = `L` | `{"ref":R}`;
+  `L` = literal in the encoding of `fe.params` (`{"int":"<dec>"}`, `{"float":..}`, `{"str":s}`, `{"bool":b}`, `{"null":true}`)
+  reply `{"out":"ok","api":..,"closed":b}` | `{"out":"error","kind":k}`;
+  with `"denote":true` also `"denote":"equal"|"differs"|"none"` (the specification-level image compared).
+`comp.hyps` request as `comp.compile`; reply: the decidable facts the theorems speak about, evaluated.
 -/
 open Lean
+open StoneVerif StoneVerif.FeCompile
+open StoneVerif.FeParams (Arg)
 
 namespace Driver.Comp
 
-def handle (op : String) (_j : Json) : Except String Json :=
-  throw s!"unknown op {op}"
+def litOfJson (j : Json) : Except String Arg := do
+  if let some v := jopt j "int" then
+    return .int (← Driver.FeRules.parseInt (← v.getStr?))
+  if let some v := jopt j "float" then
+    match v with
+    | .str "inf" => return .float .pinf
+    | .str "-inf" => return .float .ninf
+    | .arr #[n, d] =>
+      let n ← Driver.FeRules.parseInt (← n.getStr?)
+      let d ← Driver.FeRules.parseInt (← d.getStr?)
+      return .float (.fin n d.toNat)
+    | _ => throw "bad float"
+  if let some v := jopt j "str" then
+    return .str (← v.getStr?)
+  if let some v := jopt j "bool" then
+    return .bool (← v.getBool?)
+  if let some _ := jopt j "null" then
+    return .null
+  throw "literal expected (reference outside the modelled subset)"
+
+partial def refOfJson (j : Json) : Except String TRef := do
+  let ns ← match jopt j "ns" with
+    | some v => pure (some (← v.getStr?))
+    | none => pure none
+  let name ← jstr j "name"
+  let nullable ← jbool j "nullable"
+  let kw ← (← pairList j "kw").mapM fun (k, v) => do pure (k, ← litOfJson v)
+  let h : RefHead := { ns, name, kw, nullable }
+  let pos := (← jarr j "pos").toList
+  let isRef (a : Json) : Bool := (jopt a "ref").isSome
+  match pos with
+  | [a] =>
+    if isRef a then return .app1 h (← refOfJson (← jobj a "ref"))
+    else return .leaf h [← litOfJson a]
+  | [a, b] =>
+    if isRef a && isRef b then return .app2 h (← refOfJson (← jobj a "ref")) (← refOfJson (← jobj b "ref"))
+    else if !isRef a && !isRef b then return .leaf h [← litOfJson a, ← litOfJson b]
+    else throw "mixed positional arguments are outside the modelled subset"
+  | _ =>
+    if pos.any isRef then throw "three or more positional arguments with a type are outside the modelled subset"
+    else return .leaf h (← pos.mapM litOfJson)
+
+def optRef (j : Json) (k : String) : Except String (Option TRef) :=
+  match jopt j k with
+  | some v => do pure (some (← refOfJson v))
+  | none => pure none
+
+def fieldOfJson (j : Json) : Except String AField := do
+  pure { name := ← jstr j "name", ty := ← optRef j "ty", hasDefault := ← jbool j "has_default" }
+
+def declOfJson (j : Json) : Except String Decl := do
+  let k ← jstr j "k"
+  match k with
+  | "struct" =>
+    let subtypes ← match jopt j "subtypes" with
+      | none => pure none
+      | some s => do
+        let tags ← (← pairList s "tags").mapM fun (t, r) => do pure (t, ← refOfJson r)
+        pure (some (tags, ← jbool s "catch_all"))
+    let fields ← (← jarr j "fields").toList.mapM fieldOfJson
+    pure (.type { name := ← jstr j "name", kind := .struct, «extends» := ← optRef j "extends", fields, subtypes })
+  | "union" =>
+    let fields ← (← jarr j "fields").toList.mapM fieldOfJson
+    pure (.type { name := ← jstr j "name", kind := .union (← jbool j "closed"), «extends» := ← optRef j "extends", fields })
+  | "alias" => pure (.alias (← jstr j "name") (← refOfJson (← jobj j "ref")))
+  | "route" =>
+    let deprecated ← match jopt j "deprecated" with
+      | none => pure none
+      | some d => match jopt d "by" with
+        | none => pure (some none)
+        | some (.arr #[n, v]) => do pure (some (some (← n.getStr?, ← v.getInt?)))
+        | some _ => throw "bad deprecated"
+    pure (.route { name := ← jstr j "name", version := ← jint j "version", arg := ← refOfJson (← jobj j "arg"),
+                   result := ← refOfJson (← jobj j "result"), error := ← optRef j "error", deprecated })
+  | "import" => pure (.imp (← jstr j "target"))
+  | "annot" => pure (.annot (← jstr j "name"))
+  | "annot_type" => pure (.annotType (← jstr j "name"))
+  | _ => throw s!"unknown declaration kind {k}"
+
+def fileOfJson (j : Json) : Except String File := do
+  pure { ns := ← jstr j "ns", decls := ← (← jarr j "decls").toList.mapM declOfJson }
+
+def keyJ (k : Key) : Json := Json.arr #[k.1, k.2]
+
+def tyToJson : Ty → Json
+  | .prim v => Driver.FeRules.tyToJson v []
+  | .list e mn mx => Json.mkObj [("k", "List"), ("elem", tyToJson e), ("min", Driver.FeRules.optJ Driver.FeRules.intJ mn),
+                                 ("max", Driver.FeRules.optJ Driver.FeRules.intJ mx)]
+  | .map k v => Json.mkObj [("k", "Map"), ("key", tyToJson k), ("val", tyToJson v)]
+  | .nullable t => Json.mkObj [("k", "Nullable"), ("of", tyToJson t)]
+  | .user k => Json.mkObj [("k", "user"), ("ref", keyJ k)]
+  | .alias k => Json.mkObj [("k", "alias"), ("ref", keyJ k)]
+
+def optKeyJ : Option Key → Json
+  | some k => keyJ k
+  | none => Json.null
+
+def ctypeToJson (c : CType) : Json :=
+  Json.mkObj [("struct", c.isStruct), ("closed", c.closed), ("parent", optKeyJ c.parent), ("catch_all", c.catchAll),
+    ("fields", Json.arr (c.fields.map fun f => Json.arr #[f.name, tyToJson f.ty, f.hasDefault]).toArray)]
+
+def deprecatedJ : Option (Option (String × Int)) → Json
+  | none => Json.null
+  | some none => Json.mkObj [("by", Json.null)]
+  | some (some (n, v)) => Json.mkObj [("by", Json.arr #[n, Json.num (JsonNumber.fromInt v)])]
+
+def routeToJson (r : CRoute) : Json :=
+  Json.mkObj [("name", r.name), ("version", Json.num (JsonNumber.fromInt r.version)), ("arg", tyToJson r.arg),
+    ("result", tyToJson r.result), ("error", tyToJson r.error), ("deprecated", deprecatedJ r.deprecated)]
+
+def nsToJson (n : NsOut) : Json :=
+  Json.mkObj [("name", n.name),
+    ("types", Json.arr (n.types.map fun p => Json.arr #[p.1, ctypeToJson p.2]).toArray),
+    ("aliases", Json.arr (n.aliases.map fun p => Json.arr #[p.1, tyToJson p.2]).toArray),
+    ("routes", Json.arr (n.routes.map routeToJson).toArray),
+    ("enums", Json.arr (n.enums.map fun p => Json.arr #[p.1, Json.mkObj [
+        ("tags", Json.arr (p.2.1.map fun q => Json.arr #[q.1, keyJ q.2]).toArray), ("catch_all", p.2.2)]]).toArray)]
+
+def apiToJson (a : Api) : Json := Json.mkObj [("nss", Json.arr (a.nss.map nsToJson).toArray)]
+
+def errName (e : Err) : String :=
+  match e with
+  | .params r => "params." ++ Driver.FeRules.reasonStr r
+  | .crash x => "crash." ++ Driver.FeRules.excStr x
+  | e => ((reprStr e).replace "StoneVerif.FeCompile.Err." "").trimAscii.toString
+
+def parseReq (j : Json) : Except String ((String → Bool) × List File) := do
+  let rxPairs ← match jopt j "rx" with
+    | none => pure []
+    | some v => (← v.getArr?).toList.mapM fun p => do
+      match p with
+      | .arr #[a, b] => pure ((← a.getStr?), (← b.getBool?))
+      | _ => throw "rx pair expected"
+  let rx : String → Bool := fun s => (rxPairs.lookup s).getD true
+  let files ← (← jarr j "files").toList.mapM fileOfJson
+  pure (rx, files)
+
+def handleCompile (j : Json) : Except String Json := do
+  let (rx, files) ← parseReq j
+  let wantDenote := match jopt j "denote" with
+    | some (.bool true) => true
+    | _ => false
+  match compile rx files with
+  | .ok api =>
+    let den : List (String × Json) :=
+      if wantDenote then
+        [("denote", Json.str (match denote rx files with
+          | none => "none"
+          | some a => if a == api then "equal" else "differs"))]
+      else []
+    pure (ok ([("out", Json.str "ok"), ("api", apiToJson api), ("closed", Json.bool api.closed)] ++ den))
+  | .error e => pure (ok [("out", Json.str "error"), ("kind", Json.str (errName e))])
+
+def handle (op : String) (j : Json) : Except String Json :=
+  match op with
+  | "comp.compile" => handleCompile j
+  | _ => throw s!"unknown op {op}"
 
 end Driver.Comp
